@@ -22,6 +22,9 @@ type Violation struct {
 	Detail    string `json:"detail"`
 	Case      string `json:"case"`            // decoded case, human readable
 	Extra     string `json:"extra,omitempty"` // machine-readable replay data (e.g. scheduler configuration)
+	// ShardReplay "<shard>/<of>/<seed>": the case violates the property only as part of its worker
+	// shard's deterministic sequence (or cannot be addressed alone); replay re-runs that shard.
+	ShardReplay string `json:"shard_replay,omitempty"`
 }
 
 type Result struct {
@@ -221,7 +224,7 @@ func (c *Ctx) ViolateX(scope string, idx int64, sig, detail, cas, extra string) 
 	if len(cas) > 4000 {
 		cas = cas[:4000] + "..."
 	}
-	c.R.Violations = append(c.R.Violations, Violation{c.Prop, c.Tier, scope, idx, sig, detail, cas, extra})
+	c.R.Violations = append(c.R.Violations, Violation{Property: c.Prop, Tier: c.Tier, Scope: scope, Index: idx, Signature: sig, Detail: detail, Case: cas, Extra: extra})
 }
 
 func (c *Ctx) Finish() {
